@@ -4,7 +4,7 @@
    the answer to that call is an explicit argument (a script), never an axiom.  A small
    abstract server (the set of bound fids, changed by (call, answer) pairs as 9P
    prescribes: attach binds fid on success, walk binds newfid iff it is complete, clunk
-   and remove unbind) is composed with the client for the claims about server fids.
+   and remove unbind; the table is read as a set, so binding a bound fid changes nothing) is composed with the client for the claims about server fids.
    Executable definitions only; lemmas are in Proofs/CfsProofs.v.
 
    Walk is modelled AFTER the repair of defect D12 (completion test against the
@@ -155,8 +155,7 @@ Definition srv_step (srv : list N) (c : option scall) (ans : sres) : list N :=
   | Some (SAttach fid _ _ _) => match ans with AQid _ => fid :: srv | _ => srv end
   | Some (SWalk fid newfid names) =>
       match ans with
-      | AWalk qids => if Nat.eqb (length qids) (length names) && negb (newfid =? fid)
-                      then newfid :: srv else srv
+      | AWalk qids => if Nat.eqb (length qids) (length names) then newfid :: srv else srv
       | _ => srv
       end
   | Some (SClunk fid) => unbind fid srv      (* the fid is gone whatever the answer *)
